@@ -105,21 +105,61 @@ impl tokio::io::AsyncWrite for MoodySink {
 /// A stream that delivers its bytes in fragments (the way a socket does) and then EOF.  `frag` = 0: all that
 /// is asked for; n > 0: at most n bytes per read; the async side additionally returns `Pending` before every
 /// other fragment when `frag` is odd.
+/// How a stream is delivered: `frag` = at most that many bytes per read (0 = whatever is asked for); `cuts` = absolute
+/// stream offsets no read crosses (2–3 pieces with PRNG-chosen cut points: inside the header, at 48, inside the query,
+/// at the query/body boundary, inside the body, at frame boundaries); `panic_at` = the reader itself panics when asked
+/// for the byte at that offset (audit class m: what a reused buffer looks like after an unwind).
+#[derive(Clone, Default)]
+struct FragSpec {
+    frag: usize,
+    cuts: Vec<usize>,
+    panic_at: Option<usize>,
+}
+fn parse_frag(tok: Option<&str>) -> FragSpec {
+    let mut sp = FragSpec::default();
+    if let Some(t) = tok {
+        if let Some(c) = t.strip_prefix('c') {
+            sp.cuts = c.split('.').filter_map(|x| x.parse().ok()).collect();
+            sp.cuts.sort();
+        } else if let Some(k) = t.strip_prefix('p') {
+            sp.panic_at = k.parse().ok();
+        } else {
+            sp.frag = t.parse().unwrap_or(0);
+        }
+    }
+    sp
+}
+
 struct FragReader<'a> {
     data: &'a [u8],
-    frag: usize,
+    spec: FragSpec,
+    pos: usize,
     polls: usize,
 }
 impl<'a> FragReader<'a> {
-    fn new(data: &'a [u8], frag: usize) -> FragReader<'a> {
-        FragReader { data, frag, polls: 0 }
+    fn new(data: &'a [u8], spec: &FragSpec) -> FragReader<'a> {
+        FragReader { data, spec: spec.clone(), pos: 0, polls: 0 }
     }
     fn take(&mut self, want: usize) -> &'a [u8] {
-        let lim = if self.frag == 0 { want } else { want.min(self.frag) };
+        let mut lim = if self.spec.frag == 0 { want } else { want.min(self.spec.frag) };
+        if let Some(c) = self.spec.cuts.iter().find(|c| **c > self.pos) {
+            lim = lim.min(*c - self.pos);
+        }
+        if let Some(k) = self.spec.panic_at {
+            if self.pos >= k && want > 0 {
+                panic!("the stream's read() panicked");
+            }
+            lim = lim.min(k - self.pos);
+        }
         let n = lim.min(self.data.len());
         let (a, b) = self.data.split_at(n);
         self.data = b;
+        self.pos += n;
         a
+    }
+    fn pending_now(&mut self) -> bool {
+        self.polls += 1;
+        (self.spec.frag % 2 == 1 || !self.spec.cuts.is_empty()) && self.polls % 2 == 0
     }
 }
 impl<'a> std::io::Read for FragReader<'a> {
@@ -131,8 +171,7 @@ impl<'a> std::io::Read for FragReader<'a> {
 }
 impl<'a> tokio::io::AsyncRead for FragReader<'a> {
     fn poll_read(mut self: std::pin::Pin<&mut Self>, cx: &mut std::task::Context<'_>, buf: &mut tokio::io::ReadBuf<'_>) -> std::task::Poll<std::io::Result<()>> {
-        self.polls += 1;
-        if self.frag % 2 == 1 && self.polls % 2 == 0 {
+        if self.pending_now() {
             cx.waker().wake_by_ref();
             return std::task::Poll::Pending;
         }
@@ -234,7 +273,31 @@ fn exec(out: &mut Out, world: &mut World, line: &str, rtm: &tokio::runtime::Runt
             let m = Message { header: h, query: q.clone(), body: mk_body() };
             let r0 = m.to_vec();
             let mut r1 = Vec::new();
-            m.write_to(&mut r1).unwrap();
+            if cap % 8 == 0 {
+                // class j: every observer of Message / Header / MessageView hammered from two threads while the message is
+                // being emitted; they take &self, so the message and what is emitted must be untouched
+                let before = m.clone();
+                let seen = std::sync::atomic::AtomicU64::new(0);
+                std::thread::scope(|sc| {
+                    for _ in 0..2 {
+                        sc.spawn(|| {
+                            for _ in 0..40 {
+                                let n = m.serialized_len() + m.is_error() as usize + m.error_code().is_some() as usize + m.query_utf8().len() + m.body_utf8().len()
+                                    + m.query_str().is_ok() as usize + m.error_message_utf8().map(|x| x.len()).unwrap_or(0) + format!("{:?}", m.header).len()
+                                    + (m.header == m.header.clone()) as usize + m.header.encode().len();
+                                seen.fetch_add(n as u64, std::sync::atomic::Ordering::Relaxed);
+                            }
+                        });
+                    }
+                    m.write_to(&mut r1).unwrap();
+                });
+                if m != before {
+                    out.oracle_fail("wire.observers.mutated", "a Message changed while only observers ran on it", &[line.to_string()]);
+                }
+                out.count("wire.observers");
+            } else {
+                m.write_to(&mut r1).unwrap();
+            }
             let body2 = mk_body();
             let realcap = body2.capacity();
             if realcap != cap.max(b.len()) {
@@ -592,26 +655,37 @@ fn exec(out: &mut Out, world: &mut World, line: &str, rtm: &tokio::runtime::Runt
             // readm <idx> <reader 0..3> <frag> <stream> <stream> …: ONE reader value and ONE reused buffer over several
             // streams in a row; a stream may end in an error or mid-frame — the next one must be read as with a fresh buffer
             let kind = w[2];
-            let frag: usize = w[3].parse().unwrap();
-            let streams: Vec<Vec<u8>> = w[4..].iter().map(|x| unhex(x).unwrap()).collect();
+            let frag = parse_frag(Some(w[3]));
+            // a stream token `p<k>:<hex>`: the stream's own read() panics when asked for byte k (the unwind passes through the
+            // reader; the buffer is then reused for the next stream)
+            let streams: Vec<(Option<usize>, Vec<u8>)> = w[4..].iter().map(|x| match x.strip_prefix('p').and_then(|t| t.split_once(':')) {
+                Some((k, h)) => (k.parse().ok(), unhex(h).unwrap()),
+                None => (None, unhex(x).unwrap()),
+            }).collect();
             let ops = vec![line.to_string()];
             let r = catch(|| {
                 let mut buf: Vec<u8> = Vec::with_capacity(17);
                 buf.extend_from_slice(b"stale-bytes-from-an-earlier-use");
                 let mut per: Vec<(Vec<Vec<u8>>, String)> = Vec::new();
-                for sbytes in &streams {
-                    let mut cur = FragReader::new(sbytes, frag);
+                for (panic_at, sbytes) in &streams {
+                    let mut spec = frag.clone();
+                    spec.panic_at = *panic_at;
+                    let mut cur = FragReader::new(sbytes, &spec);
                     let mut frames: Vec<Vec<u8>> = Vec::new();
                     let end = loop {
-                        let res: Result<Vec<u8>, repe::RepeError> = match kind {
-                            "0" => repe::read_message(&mut cur).map(|m| m.to_vec()),
-                            "2" => rtm.block_on(async { repe::async_io::read_message_async(&mut cur).await }).map(|m| m.to_vec()),
-                            "1" => repe::read_message_into(&mut cur, &mut buf).map(|_| buf.clone()),
-                            _ => rtm.block_on(async { repe::async_io::read_message_into_async(&mut cur, &mut buf).await }).map(|_| buf.clone()),
-                        };
-                        match res {
-                            Ok(f) => frames.push(f),
-                            Err(e) => break err_class(&e),
+                        let one = catch(|| -> Result<Vec<u8>, repe::RepeError> {
+                            match kind {
+                                "0" => repe::read_message(&mut cur).map(|m| m.to_vec()),
+                                "2" => rtm.block_on(async { repe::async_io::read_message_async(&mut cur).await }).map(|m| m.to_vec()),
+                                "1" => repe::read_message_into(&mut cur, &mut buf).map(|_| buf.clone()),
+                                _ => rtm.block_on(async { repe::async_io::read_message_into_async(&mut cur, &mut buf).await }).map(|_| buf.clone()),
+                            }
+                        });
+                        match one {
+                            Ok(Ok(f)) => frames.push(f),
+                            Ok(Err(e)) => break err_class(&e),
+                            Err(_) if panic_at.is_some() => break "panicked".to_string(),
+                            Err(m) => std::panic::panic_any(m),
                         }
                         if frames.len() > 10_000 { break "runaway".to_string(); }
                     };
@@ -627,10 +701,11 @@ fn exec(out: &mut Out, world: &mut World, line: &str, rtm: &tokio::runtime::Runt
                 Ok(per) => {
                     let mut shown = Vec::new();
                     for (i, (frames, end)) in per.iter().enumerate() {
-                        let (want, _) = RawFrame::split_stream(&streams[i]);
+                        let visible = match streams[i].0 { Some(k) => &streams[i].1[..k.min(streams[i].1.len())], None => &streams[i].1[..] };
+                        let (want, _) = RawFrame::split_stream(visible);
                         let want: Vec<Vec<u8>> = want.iter().map(|f| f.to_vec()).collect();
                         if *frames != want {
-                            out.oracle_fail(&format!("parse.readm{}.frames_after_reuse", kind), &format!("stream {} of {} read with a reused buffer (fragments of {}): got {} frames, the stream holds {} whole frames (or their bytes differ)", i + 1, per.len(), frag, frames.len(), want.len()), &ops);
+                            out.oracle_fail(&format!("parse.readm{}.frames_after_reuse", kind), &format!("stream {} of {} read with a reused buffer: got {} frames, the stream holds {} whole frames (or their bytes differ)", i + 1, per.len(), frames.len(), want.len()), &ops);
                         }
                         let fs: Vec<String> = frames.iter().map(|f| format!("{}:{:016x}", f.len(), fnv(f))).collect();
                         shown.push(format!("n={} [{}] end={}", frames.len(), fs.join(","), end));
@@ -663,9 +738,9 @@ fn exec(out: &mut Out, world: &mut World, line: &str, rtm: &tokio::runtime::Runt
         "read0" | "read2" => {
             let bs = unhex(w[2]).unwrap();
             let op = w[0];
-            let frag: usize = w.get(3).and_then(|x| x.parse().ok()).unwrap_or(0);
+            let frag = parse_frag(w.get(3).copied());
             let r = catch(|| {
-                let mut src = FragReader::new(&bs, frag);
+                let mut src = FragReader::new(&bs, &frag);
                 if op == "read0" {
                     repe::read_message(&mut src)
                 } else {
@@ -679,10 +754,10 @@ fn exec(out: &mut Out, world: &mut World, line: &str, rtm: &tokio::runtime::Runt
         "read1" | "read3" => {
             let bs = unhex(w[2]).unwrap();
             let op = w[0];
-            let frag: usize = w.get(3).and_then(|x| x.parse().ok()).unwrap_or(0);
+            let frag = parse_frag(w.get(3).copied());
             let r = catch(|| {
                 let mut buf = Vec::new();
-                let mut src = FragReader::new(&bs, frag);
+                let mut src = FragReader::new(&bs, &frag);
                 let res = if op == "read1" {
                     repe::read_message_into(&mut src, &mut buf)
                 } else {
@@ -707,10 +782,10 @@ fn exec(out: &mut Out, world: &mut World, line: &str, rtm: &tokio::runtime::Runt
             // buffer that starts with spare capacity, the way the servers use them
             let bs = unhex(w[2]).unwrap();
             let op = w[0];
-            let frag: usize = w.get(3).and_then(|x| x.parse().ok()).unwrap_or(0);
+            let frag = parse_frag(w.get(3).copied());
             let r = catch(|| {
                 let mut frames: Vec<Vec<u8>> = Vec::new();
-                let mut cur = FragReader::new(&bs, frag);
+                let mut cur = FragReader::new(&bs, &frag);
                 let mut buf: Vec<u8> = Vec::with_capacity(4096);
                 let end = loop {
                     let res: Result<Vec<u8>, repe::RepeError> = match op {
@@ -820,6 +895,7 @@ fn gen_len(r: &mut Rng, big: bool) -> usize {
 
 fn gen_wire(r: &mut Rng, n: usize, big_every: usize) -> Vec<String> {
     let mut ops = Vec::new();
+    let mut next_sink = 6usize;
     for i in 0..n {
         let big = big_every > 0 && i % big_every == 0;
         let q = { let l = gen_len(r, big); r.bytes(l) };
@@ -854,8 +930,10 @@ fn gen_wire(r: &mut Rng, n: usize, big_every: usize) -> Vec<String> {
             let ec = *r.pick(&[0u32, 1, 2, 3, 4, 5, 6, 7, 8, 9, 4096]);
             ops.push(format!("build {}b {} {} {} {} {} {} {} {}", i, r.boundary(64), r.below(2), ec, r.boundary(16), r.boundary(16), hex(&q), hex(&b), r.below(12)));
         }
-        if i % 7 == 6 || i + 1 == n {
+        if i >= next_sink || i + 1 == n {
+            // class g: 1, 2, 7, 8, 9, 16, 17 (thorough: 64, 65, 256, 1000) frames in a row through the persistent writers
             ops.push(format!("sink {}s", i));
+            next_sink = i + *r.pick(if big_every <= 40 { &[1usize, 2, 7, 8, 9, 16, 17, 64, 65, 256, 1000][..] } else { &[1usize, 2, 7, 8, 9, 16, 17][..] });
         }
         if i % 9 == 0 {
             gen_aux(r, &mut ops, i, &h, &q, &b);
@@ -932,6 +1010,77 @@ fn gen_aux(r: &mut Rng, ops: &mut Vec<String>, i: usize, h: &RawHeader, q: &[u8]
 }
 
 const FRAGS: &[usize] = &[0, 0, 1, 2, 3, 7, 47, 48, 49, 64, 1000, 4097];
+const RUNS_QUICK: &[usize] = &[1, 2, 7, 8, 9, 16, 17, 64, 65];
+const RUNS_THOROUGH: &[usize] = &[1, 2, 7, 8, 9, 16, 17, 64, 65, 256, 1000];
+
+/// class h: every query length and every body length 0..=max once (an internal threshold — inline buffer, stack array, small-
+/// size fast path — can sit at any value, not only next to a power of two), plus 2^k-3..2^k+3 up to 64 KiB.
+fn gen_dense(r: &mut Rng, max: usize, pow2_up_to: u32) -> Vec<String> {
+    let mut lens: Vec<usize> = (0..=max).collect();
+    for k in 9..=pow2_up_to {
+        for d in -3i64..=3 {
+            let v = (1i64 << k) + d;
+            if v as usize > max { lens.push(v as usize); }
+        }
+    }
+    let mut ops = Vec::new();
+    for (i, &l) in lens.iter().enumerate() {
+        for which in 0..2 {
+            let (ql, bl) = if which == 0 { (l, r.below(9) as usize) } else { (r.below(9) as usize, l) };
+            let (q, b) = (r.bytes(ql), r.bytes(bl));
+            let mut h = RawFrame::request(r.next(), false, 1, &q, 2, &b).h;
+            h.reserved = r.next() as u32;
+            let total = 48 + ql + bl;
+            let cap = *r.pick(&[bl, total - 1, total, total + 1, 2 * total]);
+            ops.push(format!("msg d{}{} {} {} {} {} {} {} {}", i, which, h.fields(), hex(&q), hex(&b), cap, *r.pick(&[0usize, 48, 300]), *r.pick(&[1usize, 7, 48, 1000]), r.below(2)));
+        }
+        if i % 16 == 15 { ops.push(format!("sink d{}s", i)); }
+    }
+    ops.push("sink dend".to_string());
+    ops
+}
+
+/// 2–3 pieces with cut points at the places that matter for a frame `48 + ql + bl` long starting at `base`.
+fn gen_cuts(r: &mut Rng, base: usize, ql: usize, bl: usize) -> String {
+    let total = 48 + ql + bl;
+    let mut pts = Vec::new();
+    for _ in 0..r.range(1, 2) {
+        pts.push(base + match r.below(7) {
+            0 => 1 + r.below(47) as usize,
+            1 => 48,
+            2 if ql > 1 => 48 + 1 + r.below(ql as u64 - 1) as usize,
+            3 => 48 + ql,
+            4 if bl > 1 => 48 + ql + 1 + r.below(bl as u64 - 1) as usize,
+            5 => total,
+            _ => 1 + r.below(total as u64) as usize,
+        });
+    }
+    pts.sort();
+    format!("c{}", pts.iter().map(|x| x.to_string()).collect::<Vec<_>>().join("."))
+}
+
+/// class g for the readers: N identical frames back to back (header-only "keep-alives", small, medium) through one reader
+/// and one reused buffer; class i: the same with 2–3-piece delivery.
+fn gen_runs(r: &mut Rng, runs: &[usize], tag: &str) -> Vec<String> {
+    let mut ops = Vec::new();
+    let mut k = 0;
+    for &n in runs {
+        for kind in 0..3 {
+            let (q, b) = match kind { 0 => (vec![], vec![]), 1 => (b"/k".to_vec(), r.bytes(3)), _ => (r.bytes(20), r.bytes(280)) };
+            let f = RawFrame::request(7, kind == 0, 1, &q, 2, &b).to_vec();
+            let mut stream = Vec::with_capacity(f.len() * n);
+            for _ in 0..n { stream.extend_from_slice(&f); }
+            let base = f.len() * r.below(n as u64) as usize;
+            let spec = if r.chance(1, 2) { gen_cuts(r, base, q.len(), b.len()) } else { r.pick(FRAGS).to_string() };
+            for name in ["reads0", "reads1", "reads2", "reads3"] {
+                ops.push(format!("{} {}{} {} {}", name, tag, k, hex(&stream), spec));
+                k += 1;
+            }
+        }
+    }
+    ops
+}
+
 
 const MIB16: u64 = 16 << 20;
 
@@ -1106,6 +1255,7 @@ fn gen_parse(r: &mut Rng, n: usize, truncation_sweeps: usize) -> Vec<String> {
     }
     drop(push);
     ops.extend(gen_readm(r, (n / 40).max(12), "pm"));
+    ops.extend(gen_runs(r, if n > 10_000 { RUNS_THOROUGH } else { RUNS_QUICK }, "pr"));
     ops
 }
 
@@ -1114,7 +1264,8 @@ fn gen_parse(r: &mut Rng, n: usize, truncation_sweeps: usize) -> Vec<String> {
 fn gen_readm(r: &mut Rng, n: usize, tag: &str) -> Vec<String> {
     let mut ops = Vec::new();
     for i in 0..n {
-        let ns = r.range(2, 4);
+        // class g: now and then 7, 8, 9, 16, 17 error results in a row on the one buffer
+        let ns = if i % 5 == 4 { *r.pick(&[7u64, 8, 9, 16, 17]) } else { r.range(2, 4) };
         let mut streams = Vec::new();
         for s in 0..ns {
             let mut stream = Vec::new();
@@ -1125,17 +1276,22 @@ fn gen_readm(r: &mut Rng, n: usize, tag: &str) -> Vec<String> {
                 let (q, b) = (r.bytes(ql), r.bytes(bl));
                 stream.extend(RawFrame::request(100 * s + j, r.chance(1, 4), 1, &q, 2, &b).to_vec());
             }
-            match r.below(6) {
+            if ns > 4 && stream.len() > 400 { stream.truncate(400 - (s as usize % 7)); }
+            let mut panics_at: Option<usize> = None;
+            match r.below(7) {
                 0 => { let cut = r.below(stream.len() as u64) as usize; stream.truncate(cut); }
                 1 => { let l = 1 + r.below(80) as usize; stream.extend(r.bytes(l)); }
                 2 => stream.extend(RawHeader { length: 48 + (1 << 62), spec: 0x1507, version: 1, body_length: 1 << 62, ..Default::default() }.encode()),
                 3 => stream.extend(RawHeader { length: 47, spec: 0x1507, version: 1, query_length: u64::MAX, ..Default::default() }.encode()),
+                // class m: the stream's own read() panics at a random offset; the unwind goes through the reader
+                4 if ns <= 4 => panics_at = Some(r.below(stream.len() as u64) as usize),
                 _ => {}
             }
-            streams.push(hex(&stream));
+            streams.push(match panics_at { Some(k) => format!("p{}:{}", k, hex(&stream)), None => hex(&stream) });
         }
         for kind in 0..4 {
-            ops.push(format!("readm {}{}k{} {} {} {}", tag, i, kind, kind, *r.pick(FRAGS), streams.join(" ")));
+            let spec = if r.chance(1, 3) { gen_cuts(r, 0, 10, 300) } else { r.pick(FRAGS).to_string() };
+            ops.push(format!("readm {}{}k{} {} {} {}", tag, i, kind, kind, spec, streams.join(" ")));
         }
     }
     ops
@@ -1153,6 +1309,7 @@ fn counting_panic_hook() {
     }));
 }
 
+#[allow(dead_code)]
 struct NetWorld {
     rt: tokio::runtime::Runtime,
     tcp: std::net::SocketAddr,
@@ -1163,12 +1320,52 @@ struct NetWorld {
     atcprt: std::net::SocketAddr,
     /// how often the handler of `/smuggled` ran on those two servers: no op ever sends a frame addressed to it
     smuggled: std::sync::Arc<std::sync::atomic::AtomicU64>,
+    /// every TCP endpoint by name: read timeout × write timeout pairs (class k): tcp/atcp (none, none), tcpw/atcpw
+    /// (none, 150 ms), tcprt/atcprt (30 ms, none), tcprw/atcprw (30 ms, 150 ms)
+    tcp_eps: std::collections::BTreeMap<&'static str, (std::net::SocketAddr, bool)>,
+}
+
+const WRITE_TIMEOUT_MS: u64 = 150;
+
+fn tcp_ep(w: &NetWorld, name: &str) -> (std::net::SocketAddr, bool) {
+    *w.tcp_eps.get(name).unwrap_or_else(|| panic!("unknown tcp endpoint {}", name))
+}
+
+fn ask_ping(addr: std::net::SocketAddr, ping: &[u8]) -> bool {
+    use std::io::{Read, Write};
+    if let Ok(mut s) = std::net::TcpStream::connect(addr) {
+        let _ = s.set_read_timeout(Some(std::time::Duration::from_secs(10)));
+        if s.write_all(ping).is_ok() {
+            let mut buf = Vec::new();
+            let mut tmp = [0u8; 4096];
+            while RawFrame::parse_prefix(&buf).is_none() {
+                match s.read(&mut tmp) { Ok(0) | Err(_) => break, Ok(n) => buf.extend_from_slice(&tmp[..n]) }
+            }
+            return RawFrame::parse_prefix(&buf).map(|(f, _)| f.h.id == 77 && f.h.ec == 0).unwrap_or(false);
+        }
+    }
+    false
+}
+
+/// "The endpoint still serves": a well-formed request on a fresh connection is answered.  An endpoint with a short read
+/// timeout may legitimately drop a connection whose first bytes arrive late (this process descheduled between connect and
+/// write), so there a few fresh connections are tried — the statement is about the endpoint, not about one connection.
+fn still_serves(addr: std::net::SocketAddr, has_read_timeout: bool, ping: &[u8]) -> bool {
+    for _ in 0..(if has_read_timeout { 6 } else { 1 }) {
+        if ask_ping(addr, ping) { return true; }
+    }
+    false
 }
 
 const READ_TIMEOUT_MS: u64 = 30;
 
-fn net_world() -> NetWorld {
-    let rt = tokio::runtime::Builder::new_multi_thread().worker_threads(3).enable_all().build().unwrap();
+fn net_world(lean: bool) -> NetWorld {
+    // class l: half of the runs use a runtime with ONE worker and ONE blocking-pool thread for all async endpoints
+    let rt = if lean {
+        tokio::runtime::Builder::new_multi_thread().worker_threads(1).max_blocking_threads(1).enable_all().build().unwrap()
+    } else {
+        tokio::runtime::Builder::new_multi_thread().worker_threads(3).enable_all().build().unwrap()
+    };
     let mk = || repe::Router::new().with_json("/ping", |_v| Ok(serde_json::json!("pong")));
     let l = std::net::TcpListener::bind("127.0.0.1:0").unwrap();
     let tcp = l.local_addr().unwrap();
@@ -1216,7 +1413,33 @@ fn net_world() -> NetWorld {
         });
         a
     });
-    NetWorld { rt, tcp, atcp, ws, tcprt, atcprt, smuggled }
+    let mut tcp_eps = std::collections::BTreeMap::new();
+    tcp_eps.insert("tcp", (tcp, false));
+    tcp_eps.insert("atcp", (atcp, false));
+    tcp_eps.insert("tcprt", (tcprt, true));
+    tcp_eps.insert("atcprt", (atcprt, true));
+    let ms = std::time::Duration::from_millis;
+    for (name, rd) in [("tcpw", None), ("tcprw", Some(ms(READ_TIMEOUT_MS)))] {
+        let l = std::net::TcpListener::bind("127.0.0.1:0").unwrap();
+        tcp_eps.insert(name, (l.local_addr().unwrap(), rd.is_some()));
+        let srv = repe::Server::new(mk_rt(smuggled.clone())).read_timeout(rd).write_timeout(Some(ms(WRITE_TIMEOUT_MS))).tcp_nodelay(name == "tcpw");
+        std::thread::spawn(move || {
+            let _ = srv.serve(l);
+        });
+    }
+    for (name, rd) in [("atcpw", None), ("atcprw", Some(ms(READ_TIMEOUT_MS)))] {
+        let router = mk_rt(smuggled.clone());
+        let a = rt.block_on(async {
+            let l = tokio::net::TcpListener::bind("127.0.0.1:0").await.unwrap();
+            let a = l.local_addr().unwrap();
+            tokio::spawn(async move {
+                let _ = repe::AsyncServer::new(router).read_timeout(rd).write_timeout(Some(ms(WRITE_TIMEOUT_MS))).serve(l).await;
+            });
+            a
+        });
+        tcp_eps.insert(name, (a, rd.is_some()));
+    }
+    NetWorld { rt, tcp, atcp, ws, tcprt, atcprt, smuggled, tcp_eps }
 }
 
 /// Send `bs` to a real endpoint (or answer a real client's call with it) and report whether anything panicked
@@ -1233,9 +1456,90 @@ fn exec_net(out: &mut Out, w: &NetWorld, line: &str) -> (String, bool) {
     let ping = RawFrame::request(77, false, 1, b"/ping", 2, b"null").to_vec();
     let t = std::time::Duration::from_millis(1500);
     let mut alive = true;
+    let extra = ws_.get(5).copied().unwrap_or("");
+    // ---- class g: the same hostile bytes on N fresh connections in a row (no well-formed request in between)
+    if let Some(n) = extra.strip_prefix('n').and_then(|x| x.parse::<usize>().ok()) {
+        if ep == "ws" {
+            let url = format!("ws://{}/repe", w.ws);
+            alive = w.rt.block_on(async {
+                for _ in 0..n {
+                    if let Ok((mut c, _)) = tokio_tungstenite::connect_async(&url).await {
+                        let _ = c.send(WsMsg::Binary(bs.clone())).await;
+                        let _ = tokio::time::timeout(std::time::Duration::from_millis(300), c.next()).await;
+                    }
+                }
+                let Ok((mut c, _)) = tokio_tungstenite::connect_async(&url).await else { return false };
+                if c.send(WsMsg::Binary(ping.clone())).await.is_err() { return false; }
+                match tokio::time::timeout(std::time::Duration::from_secs(10), c.next()).await {
+                    Ok(Some(Ok(WsMsg::Binary(b)))) => RawFrame::parse_prefix(&b).map(|(f, _)| f.h.id == 77 && f.h.ec == 0).unwrap_or(false),
+                    _ => false,
+                }
+            });
+        } else {
+            let (addr, has_rt) = tcp_ep(w, ep);
+            for _ in 0..n {
+                if let Ok(mut s) = std::net::TcpStream::connect(addr) {
+                    let _ = s.write_all(&bs);
+                    let _ = s.shutdown(std::net::Shutdown::Write);
+                    let _ = repe_verif_harness::net::drain(&mut s, 1 << 16, std::time::Duration::from_millis(300));
+                }
+            }
+            alive = still_serves(addr, has_rt, &ping);
+        }
+        return finish_net(out, ep, idx, line, before, alive, &format!("{} hostile connections in a row", n));
+    }
+    // ---- class l (+g): N large well-formed requests written without ever reading a response (the server's outbound side
+    // fills up), then the hostile bytes, then the peer goes away
+    if let Some(n) = extra.strip_prefix('f').and_then(|x| x.parse::<usize>().ok()) {
+        let (addr, has_rt) = tcp_ep(w, ep);
+        let big = RawFrame::request(78, false, 1, b"/ping", 2, &{ let mut b = b"null".to_vec(); b.resize(32 * 1024, b' '); b }).to_vec();
+        if let Ok(mut s) = std::net::TcpStream::connect(addr) {
+            let _ = s.set_write_timeout(Some(std::time::Duration::from_millis(500)));
+            for _ in 0..n {
+                if s.write_all(&big).is_err() { break; }
+            }
+            let _ = s.write_all(&bs);
+            std::thread::sleep(std::time::Duration::from_millis(30));
+        }
+        alive = still_serves(addr, has_rt, &ping);
+        return finish_net(out, ep, idx, line, before, alive, &format!("{} unread responses then hostile bytes", n));
+    }
+    // ---- classes h, i: a well-formed request of a chosen total size written in pieces at chosen cut points, with or without
+    // a stall, to an endpoint WITHOUT a read timeout: it is one whole consistent frame, so it is served
+    if extra.starts_with('c') && matches!(ep, "tcp" | "atcp" | "tcpw" | "atcpw") {
+        let (addr, _) = tcp_ep(w, ep);
+        let spec = parse_frag(Some(extra));
+        let stall = std::time::Duration::from_millis(ws_.get(6).and_then(|x| x.parse().ok()).unwrap_or(0));
+        let mut answered = false;
+        if let Ok(mut s) = std::net::TcpStream::connect(addr) {
+            let _ = s.set_nodelay(true);
+            let mut at = 0usize;
+            for &sp in spec.cuts.iter().chain(std::iter::once(&bs.len())) {
+                let sp = sp.min(bs.len());
+                if sp > at {
+                    if s.write_all(&bs[at..sp]).is_err() { break; }
+                    at = sp;
+                }
+                if at < bs.len() && !stall.is_zero() { std::thread::sleep(stall); }
+            }
+            let _ = s.set_read_timeout(Some(std::time::Duration::from_secs(10)));
+            let mut buf = Vec::new();
+            let mut tmp = [0u8; 4096];
+            while RawFrame::parse_prefix(&buf).is_none() {
+                match s.read(&mut tmp) { Ok(0) | Err(_) => break, Ok(n) => buf.extend_from_slice(&tmp[..n]) }
+            }
+            let want_id = RawHeader::parse(&bs).map(|h| h.id).unwrap_or(0);
+            answered = RawFrame::parse_prefix(&buf).map(|(f, _)| f.h.id == want_id && f.h.ec == 0).unwrap_or(false);
+        }
+        if !answered {
+            out.oracle_fail(&format!("parse.net.{}.whole_frame_in_pieces_not_served", ep), &format!("a whole consistent {}-byte request delivered in pieces (cuts {:?}, stall {} ms) to an endpoint without a read timeout was not answered", bs.len(), spec.cuts, stall.as_millis()), &[line.to_string()]);
+        }
+        return finish_net(out, ep, idx, line, before, true, "pieces");
+    }
     match ep {
-        "tcp" | "atcp" => {
-            let addr = if ep == "tcp" { w.tcp } else { w.atcp };
+        "tcp" | "atcp" | "tcpw" | "atcpw" | "tcprt" | "atcprt" | "tcprw" | "atcprw" if extra.is_empty() => {
+            let (addr, has_rt) = tcp_ep(w, ep);
+            let pre = pre && !has_rt;
             if let Ok(mut s) = std::net::TcpStream::connect(addr) {
                 if pre {
                     let _ = s.set_read_timeout(Some(std::time::Duration::from_secs(10)));
@@ -1262,18 +1566,7 @@ fn exec_net(out: &mut Out, w: &NetWorld, line: &str) -> (String, bool) {
                 }
             }
             // the server must still answer a fresh connection
-            alive = false;
-            if let Ok(mut s) = std::net::TcpStream::connect(addr) {
-                let _ = s.set_read_timeout(Some(std::time::Duration::from_secs(10)));
-                if s.write_all(&ping).is_ok() {
-                    let mut buf = Vec::new();
-                    let mut tmp = [0u8; 4096];
-                    while RawFrame::parse_prefix(&buf).is_none() {
-                        match s.read(&mut tmp) { Ok(0) | Err(_) => break, Ok(n) => buf.extend_from_slice(&tmp[..n]) }
-                    }
-                    alive = RawFrame::parse_prefix(&buf).map(|(f, _)| f.h.id == 77 && f.h.ec == 0).unwrap_or(false);
-                }
-            }
+            alive = still_serves(addr, has_rt, &ping);
         }
         "ws" => {
             let url = format!("ws://{}/repe", w.ws);
@@ -1367,8 +1660,8 @@ fn exec_net(out: &mut Out, w: &NetWorld, line: &str) -> (String, bool) {
         // where the rest of the stream begins with a complete well-formed request frame to the counting route `/smuggled`
         // (id 99).  Whatever the server does at the timeout (close, or finish the same frame), it must never take up
         // reading in the middle of a frame: nothing embedded is dispatched or answered.
-        "tcprt" | "atcprt" => {
-            let addr = if ep == "tcprt" { w.tcprt } else { w.atcprt };
+        "tcprt" | "atcprt" | "tcprw" | "atcprw" => {
+            let (addr, _) = tcp_ep(w, ep);
             let splits: Vec<usize> = ws_.get(5).map(|x| x.split(',').filter_map(|t| t.parse().ok()).collect()).unwrap_or_default();
             let stall = std::time::Duration::from_millis(ws_.get(6).and_then(|x| x.parse().ok()).unwrap_or(4 * READ_TIMEOUT_MS));
             let count0 = w.smuggled.load(std::sync::atomic::Ordering::SeqCst);
@@ -1395,18 +1688,7 @@ fn exec_net(out: &mut Out, w: &NetWorld, line: &str) -> (String, bool) {
                 out.oracle_fail(&format!("parse.net.{}.embedded_frame_dispatched", ep), &format!("after a stall inside a frame (read timeout {} ms, stall {} ms at offsets {:?}) bytes INSIDE that frame were read as a frame of their own: handler ran {}, response for the embedded id arrived {}", READ_TIMEOUT_MS, stall.as_millis(), splits, ran, answered_99), &[line.to_string()]);
             }
             // the server must still answer a fresh connection
-            alive = false;
-            if let Ok(mut s) = std::net::TcpStream::connect(addr) {
-                let _ = s.set_read_timeout(Some(std::time::Duration::from_secs(10)));
-                if s.write_all(&ping).is_ok() {
-                    let mut buf = Vec::new();
-                    let mut tmp = [0u8; 4096];
-                    while RawFrame::parse_prefix(&buf).is_none() {
-                        match s.read(&mut tmp) { Ok(0) | Err(_) => break, Ok(n) => buf.extend_from_slice(&tmp[..n]) }
-                    }
-                    alive = RawFrame::parse_prefix(&buf).map(|(f, _)| f.h.id == 77 && f.h.ec == 0).unwrap_or(false);
-                }
-            }
+            alive = still_serves(addr, true, &ping);
         }
         // the WebSocket proxy entry point (`proxy_connection`): one inbound binary message = one frame, forwarded upstream
         "wsproxy" => {
@@ -1444,6 +1726,70 @@ fn exec_net(out: &mut Out, w: &NetWorld, line: &str) -> (String, bool) {
                 out.oracle_fail("parse.net.wsproxy.served_inexact_message", "the WebSocket proxy forwarded (and got answered, ec 0) a binary message that is not exactly one consistent frame", &[line.to_string()]);
             }
         }
+        // EINTR while the blocking Client's reader is blocked INSIDE a response frame whose remaining bytes begin with a
+        // well-formed response frame for the same id: the call may fail, or return the real response — never the embedded one
+        "eintr" => {
+            let cut = ws_.get(5).copied().unwrap_or("0");
+            let signals = ws_.get(6).copied().unwrap_or("1");
+            let exe = std::env::current_exe().expect("current exe");
+            let outp = std::process::Command::new(exe).args(["eintr-child", ws_[3], cut, signals]).output();
+            let text = outp.as_ref().map(|o| String::from_utf8_lossy(&o.stdout).to_string()).unwrap_or_default();
+            let res = text.lines().find_map(|l| l.strip_prefix("RESULT ")).unwrap_or("none").to_string();
+            out.count(&format!("parse.net.eintr.{}", res.split(' ').next().unwrap_or("none")));
+            if res.starts_with("ok-other") {
+                out.oracle_fail("parse.net.client.resync_inside_frame_after_eintr", &format!("after {} EINTR at offset {} of a response the blocking Client returned Ok with a body that is not the body of the response frame on the stream ({}): bytes inside the frame were parsed as a frame of their own", signals, cut, &res[..res.len().min(80)]), &[line.to_string()]);
+            }
+        }
+        // class i at the clients' entry points: a well-formed response for the client's own id, delivered in pieces at chosen
+        // cut points with stalls in between (`bs` = the JSON body of the reply, padded to a chosen size).  It is one whole
+        // consistent frame: the call returns Ok with exactly that body.
+        "clientfrag" | "aclientfrag" => {
+            let spec = parse_frag(Some(extra));
+            let stall = std::time::Duration::from_millis(ws_.get(6).and_then(|x| x.parse().ok()).unwrap_or(0));
+            let body = bs.clone();
+            let l = std::net::TcpListener::bind("127.0.0.1:0").unwrap();
+            let addr = l.local_addr().unwrap();
+            let cuts = spec.cuts.clone();
+            std::thread::spawn(move || {
+                if let Ok((mut s, _)) = l.accept() {
+                    let _ = s.set_nodelay(true);
+                    let mut got = Vec::new();
+                    let mut tmp = [0u8; 4096];
+                    while RawFrame::parse_prefix(&got).is_none() {
+                        match s.read(&mut tmp) { Ok(0) | Err(_) => return, Ok(n) => got.extend_from_slice(&tmp[..n]) }
+                    }
+                    let id = RawHeader::parse(&got).map(|h| h.id).unwrap_or(0);
+                    let reply = RawFrame::request(id, false, 1, b"/x", 2, &body).to_vec();
+                    let mut at = 0usize;
+                    for &sp in cuts.iter().chain(std::iter::once(&reply.len())) {
+                        let sp = sp.min(reply.len());
+                        if sp > at {
+                            if s.write_all(&reply[at..sp]).is_err() { return; }
+                            at = sp;
+                        }
+                        if at < reply.len() && !stall.is_zero() { std::thread::sleep(stall); }
+                    }
+                    std::thread::sleep(std::time::Duration::from_millis(200));
+                }
+            });
+            let want: serde_json::Value = serde_json::from_slice(&bs).expect("reply body is JSON");
+            let got: Result<serde_json::Value, String> = if ep == "clientfrag" {
+                match repe::Client::connect(addr) {
+                    Ok(c) => c.call_json_with_timeout("/x", &serde_json::json!(1), std::time::Duration::from_secs(10)).map_err(|e| err_class(&e)),
+                    Err(e) => Err(format!("connect: {}", e)),
+                }
+            } else {
+                w.rt.block_on(async {
+                    match repe::AsyncClient::connect(addr).await {
+                        Ok(c) => c.call_json_with_timeout("/x", &serde_json::json!(1), std::time::Duration::from_secs(10)).await.map_err(|e| err_class(&e)),
+                        Err(e) => Err(format!("connect: {}", e)),
+                    }
+                })
+            };
+            if got.as_ref().ok() != Some(&want) {
+                out.oracle_fail(&format!("parse.net.{}.fragmented_reply_wrong", ep), &format!("a whole consistent {}-byte response delivered in pieces (cuts {:?}, stall {} ms) did not come back as its own body: {:?}", 48 + 2 + bs.len(), spec.cuts, stall.as_millis(), got.as_ref().map(|_| "a different value")), &[line.to_string()]);
+            }
+        }
         // the real WebSocketClient answered with a well-formed response for ITS id followed by extra bytes in the same
         // binary message: one message per buffer, so the exact-length rule says this is not a response
         "wsecho" => {
@@ -1477,14 +1823,18 @@ fn exec_net(out: &mut Out, w: &NetWorld, line: &str) -> (String, bool) {
         }
         other => panic!("unknown endpoint {}", other),
     }
+    finish_net(out, ep, idx, line, before, alive, "")
+}
+
+fn finish_net(out: &mut Out, ep: &str, idx: &str, line: &str, before: u64, alive: bool, what: &str) -> (String, bool) {
     let after = PANICS.load(std::sync::atomic::Ordering::SeqCst);
     if after != before {
-        out.oracle_fail(&format!("parse.net.{}.panic", ep), &format!("{} panic(s) inside the endpoint while it handled hostile bytes", after - before), &[line.to_string()]);
+        out.oracle_fail(&format!("parse.net.{}.panic", ep), &format!("{} panic(s) inside the endpoint while it handled hostile bytes {}", after - before, what), &[line.to_string()]);
     }
     if !alive {
-        out.oracle_fail(&format!("parse.net.{}.dead_after", ep), "the endpoint no longer answers a well-formed request after receiving hostile bytes", &[line.to_string()]);
+        out.oracle_fail(&format!("parse.net.{}.dead_after", ep), &format!("the endpoint no longer answers a well-formed request after receiving hostile bytes {}", what), &[line.to_string()]);
     }
-    out.count(&format!("parse.net.{}", ep));
+    out.count(&format!("parse.net.{}{}", ep, if what.is_empty() { String::new() } else { format!(".{}", what.split(' ').last().unwrap_or("")) }));
     (format!("{} survived", idx), false)
 }
 
@@ -1531,7 +1881,90 @@ fn gen_stall(r: &mut Rng, n: usize) -> Vec<String> {
         }
         let stall_ms = if r.chance(1, 8) { 0 } else { *r.pick(&[4 * READ_TIMEOUT_MS, 5 * READ_TIMEOUT_MS, 7 * READ_TIMEOUT_MS]) };
         let sp: Vec<String> = splits.iter().map(|x| x.to_string()).collect();
-        ops.push(format!("net st{} {} {} 0 {} {}", i, if i % 2 == 0 { "tcprt" } else { "atcprt" }, hex(&frame), sp.join(","), stall_ms));
+        ops.push(format!("net st{} {} {} 0 {} {}", i, ["tcprt", "atcprt", "tcprw", "atcprw"][i % 4], hex(&frame), sp.join(","), stall_ms));
+    }
+    ops
+}
+
+/// Second audit pass, network side: runs of N hostile connections (g), frame sizes around the 8 KiB BufReader/BufWriter
+/// capacity and its multiples delivered whole and in pieces (h, i), every read-timeout × write-timeout pair (k), unread
+/// responses piling up (l), fragmented replies to the real clients (i).
+fn gen_net2(r: &mut Rng, thorough: bool) -> Vec<String> {
+    let mut ops = Vec::new();
+    let tcp_all = ["tcp", "atcp", "tcpw", "atcpw", "tcprt", "atcprt", "tcprw", "atcprw"];
+    let hostile: Vec<Vec<u8>> = vec![
+        RawHeader { length: 48, spec: 0, version: 1, ..Default::default() }.encode().to_vec(),
+        RawHeader { length: 47, spec: 0x1507, version: 1, query_length: u64::MAX, ..Default::default() }.encode().to_vec(),
+        RawHeader { length: 48 + (1 << 62), spec: 0x1507, version: 1, body_length: 1 << 62, ..Default::default() }.encode().to_vec(),
+        vec![0x15],
+    ];
+    // (k) every hostile form once on every timeout combination
+    for (i, ep) in tcp_all.iter().enumerate() {
+        for (j, h) in hostile.iter().enumerate() {
+            ops.push(format!("net k{}{} {} {} {}", i, j, ep, hex(h), r.below(2)));
+        }
+    }
+    // (g) N in a row
+    let runs: &[usize] = if thorough { &[1, 2, 7, 8, 9, 16, 17, 64, 65, 256, 1000] } else { &[2, 8, 9, 17] };
+    for (i, &n) in runs.iter().enumerate() {
+        let eps: Vec<&str> = if thorough { tcp_all.iter().copied().chain(["ws"]).collect() } else { vec![tcp_all[(2 * i) % 8], tcp_all[(2 * i + 1) % 8], "ws"] };
+        for ep in eps {
+            if ep == "ws" && n > 65 { continue; }
+            ops.push(format!("net g{}{} {} {} 0 n{}", i, ep, ep, hex(r.pick(&hostile)), n));
+        }
+    }
+    // (h, i) whole requests whose total size sits around the buffer capacities, in pieces
+    let totals: &[usize] = if thorough { &[8191, 8192, 8193, 8192 + 48, 16383, 16384, 16385, 65535, 65536, 65537, 57, 60] } else { &[8191, 8192, 8193, 16384, 57] };
+    for (i, &total) in totals.iter().enumerate() {
+        for (j, ep) in ["tcp", "atcp", "tcpw", "atcpw"].iter().enumerate() {
+            if !thorough && (i + j) % 2 == 1 { continue; }
+            let mut body = b"null".to_vec();
+            body.resize(total - 48 - 5, b' ');
+            let f = RawFrame::request(5000 + i as u64, false, 1, b"/ping", 2, &body).to_vec();
+            let cuts = match r.below(4) {
+                0 => format!("c{}", (1..f.len().min(200)).map(|x| x.to_string()).collect::<Vec<_>>().join(".")),   // 1-byte pieces
+                1 => "c8192".to_string(),
+                _ => gen_cuts(r, 0, 5, body.len()),
+            };
+            // a stall only between 2–3 pieces (a hundred 1-byte pieces with a stall each would just be slow)
+            let stall = if cuts.matches('.').count() > 3 { 0 } else { *r.pick(&[0u64, 0, 40, 120]) };
+            ops.push(format!("net z{}{} {} {} 0 {} {}", i, j, ep, hex(&f), cuts, stall));
+        }
+    }
+    // (l) unread responses, then hostile bytes
+    for (i, ep) in tcp_all.iter().enumerate() {
+        if !thorough && i % 2 == 1 { continue; }
+        ops.push(format!("net l{} {} {} 0 f{}", i, ep, hex(r.pick(&hostile)), *r.pick(if thorough { &[1usize, 16, 64, 256][..] } else { &[1usize, 16, 64][..] })));
+    }
+    // (i, g) EINTR inside a response frame to the blocking Client, 1 / 2 / 8 signals in a row, at offsets where the rest of the
+    // stream begins with a well-formed response for the same id (the id is stamped in by the child: marker 0x5a…)
+    const ID_MARK: u64 = 0x5a5a_5a5a_5a5a_5a5a;
+    for i in 0..(if thorough { 24 } else { 4 }) {
+        let emb = RawFrame::request(ID_MARK, false, 1, b"/x", 2, b"\"SMUGGLED\"").to_vec();
+        let (real, pos) = match i % 4 {
+            0 => { let mut b = vec![b' '; 1 + r.below(20) as usize]; let k = b.len(); b.extend_from_slice(&emb); (RawFrame::request(ID_MARK, false, 1, b"/x", 0, &b).to_vec(), 48 + 2 + k) }
+            1 => { let mut b = emb.clone(); b.extend(r.bytes(5)); (RawFrame::request(ID_MARK, false, 1, b"/x", 0, &b).to_vec(), 48 + 2) }
+            2 => (RawFrame::request(ID_MARK, false, 1, &emb, 0, b"tail").to_vec(), 48),
+            _ => { let mut b = vec![b' '; 40]; b.extend_from_slice(&emb); (RawFrame::request(ID_MARK, false, 1, b"/x", 0, &b).to_vec(), 1 + r.below(47) as usize) }   // control: EINTR inside the header
+        };
+        ops.push(format!("net ei{} eintr {} 0 {} {}", i, hex(&real), pos, *r.pick(&[1usize, 2, 8])));
+    }
+    // (i) replies to the real clients in pieces: every cut class for both clients, with and without a stall
+    for i in 0..(if thorough { 80 } else { 12 }) {
+        let total = *r.pick(&[57usize, 60, 300, 8191, 8192, 8193, 16384, 70_000]);
+        let mut body = b"[1,2,3]".to_vec();
+        body.resize(total - 50, b' ');
+        let cuts = match (i / 2) % 6 {
+            0 => format!("c{}", (1..total.min(120)).map(|x| x.to_string()).collect::<Vec<_>>().join(".")),   // 1-byte pieces
+            1 => format!("c{}", 1 + r.below(47)),                         // inside the header
+            2 => "c48".to_string(),
+            3 => "c49.50".to_string(),                                    // inside the query, at the body boundary
+            4 => format!("c{}", 51 + r.below(body.len() as u64 - 1)),     // inside the body
+            _ => gen_cuts(r, 0, 2, body.len()),
+        };
+        // a stall between 2–3 pieces; a hundred 1-byte pieces get 1 ms each so that they really arrive one by one
+        let stall = if cuts.matches('.').count() > 3 { 1 } else { *r.pick(&[0u64, 30, 90]) };
+        ops.push(format!("net cf{} {} {} 0 {} {}", i, if i % 2 == 0 { "clientfrag" } else { "aclientfrag" }, hex(&body), cuts, stall));
     }
     ops
 }
@@ -1545,6 +1978,7 @@ fn gen_net(r: &mut Rng, n: usize) -> Vec<String> {
         ops.push(format!("net e{} wsecho {}", i, hex(&suffix)));
     }
     ops.extend(gen_stall(r, (n / 15).max(16)));
+    ops.extend(gen_net2(r, n > 1000));
     // a well-formed request to a registered route followed by trailing bytes / a second frame, as ONE WebSocket message:
     // the exact-length rule says it must not be served
     for i in 0..(n / 12).max(12) {
@@ -1585,7 +2019,88 @@ fn fixture_ops(out: &mut Out) -> Vec<String> {
     ops
 }
 
+// ------------------------------------------------------------------------------------------
+// EINTR inside a response frame (child process: signals are process-wide, so this runs in a process of its own whose only
+// thread able to take the signal is the blocking Client's reader thread)
+// ------------------------------------------------------------------------------------------
+extern "C" fn eintr_noop(_: libc::c_int) {}
+
+fn block_sigusr1() {
+    unsafe {
+        let mut set: libc::sigset_t = std::mem::zeroed();
+        libc::sigemptyset(&mut set);
+        libc::sigaddset(&mut set, libc::SIGUSR1);
+        libc::pthread_sigmask(libc::SIG_BLOCK, &set, std::ptr::null_mut());
+    }
+}
+
+/// `fam_wire eintr-child <hex of the real response with id 0> <offset> <signals>`: a peer sends the response up to
+/// `offset`, delivers `signals` SIGUSR1 (handler installed without SA_RESTART, so the reader's blocked read() returns
+/// EINTR), then sends the rest.  Prints what the call returned.
+fn eintr_child(extra: &[String]) {
+    use std::io::{Read, Write};
+    let template = unhex(&extra[1]).expect("hex");
+    let cut: usize = extra[2].parse().expect("offset");
+    let signals: usize = extra[3].parse().expect("signals");
+    unsafe {
+        let mut sa: libc::sigaction = std::mem::zeroed();
+        sa.sa_sigaction = eintr_noop as *const () as usize;
+        sa.sa_flags = 0;
+        libc::sigaction(libc::SIGUSR1, &sa, std::ptr::null_mut());
+    }
+    let l = std::net::TcpListener::bind("127.0.0.1:0").unwrap();
+    let addr = l.local_addr().unwrap();
+    let (tx, rx) = std::sync::mpsc::channel::<Vec<u8>>();
+    let server = std::thread::spawn(move || {
+        block_sigusr1();
+        let Ok((mut s, _)) = l.accept() else { return };
+        let _ = s.set_nodelay(true);
+        let mut got = Vec::new();
+        let mut tmp = [0u8; 4096];
+        while RawFrame::parse_prefix(&got).is_none() {
+            match s.read(&mut tmp) { Ok(0) | Err(_) => return, Ok(n) => got.extend_from_slice(&tmp[..n]) }
+        }
+        let id = RawHeader::parse(&got).map(|h| h.id).unwrap_or(0);
+        // the template carries id 0 in the outer header and in every embedded header: stamp the client's id everywhere
+        let mut real = template.clone();
+        let marker = 0x5a5a_5a5a_5a5a_5a5au64.to_le_bytes();
+        let mut i = 0;
+        while i + 8 <= real.len() {
+            if real[i..i + 8] == marker { real[i..i + 8].copy_from_slice(&id.to_le_bytes()); i += 8; } else { i += 1; }
+        }
+        let _ = tx.send(real.clone());
+        let cut = cut.min(real.len());
+        let _ = s.write_all(&real[..cut]);
+        std::thread::sleep(std::time::Duration::from_millis(120));
+        for _ in 0..signals {
+            unsafe { libc::kill(libc::getpid(), libc::SIGUSR1); }
+            std::thread::sleep(std::time::Duration::from_millis(15));
+        }
+        std::thread::sleep(std::time::Duration::from_millis(60));
+        let _ = s.write_all(&real[cut..]);
+        std::thread::sleep(std::time::Duration::from_millis(400));
+    });
+    let c = repe::Client::connect(addr).expect("connect");   // the reader thread inherits this thread's unblocked mask
+    block_sigusr1();                                          // now only the reader thread can take SIGUSR1
+    let r = c.call_with_formats_and_timeout("/x", 1, Some(b"{}"), 2, std::time::Duration::from_secs(5));
+    let real = rx.recv_timeout(std::time::Duration::from_secs(5)).unwrap_or_default();
+    match r {
+        Ok(m) => {
+            let want = RawFrame::parse_prefix(&real).map(|(f, _)| f);
+            let same = want.as_ref().map(|f| f.body == m.body && f.query == m.query && RawHeader::of(&m.header) == f.h).unwrap_or(false);
+            println!("RESULT {}", if same { "ok-real".to_string() } else { format!("ok-other {}", hex(&m.body)) });
+        }
+        Err(e) => println!("RESULT err {}", err_class(&e)),
+    }
+    let _ = server.join();
+}
+
 fn main() {
+    if std::env::args().nth(1).as_deref() == Some("eintr-child") {
+        let extra: Vec<String> = std::env::args().skip(1).collect();
+        eintr_child(&extra);
+        return;
+    }
     let args = Args::parse();
     let family = args.extra.first().cloned().unwrap_or_else(|| "wire".into());
     if family == "parse" { counting_panic_hook(); } else { quiet_panics(); }
@@ -1618,6 +2133,8 @@ fn main() {
             }
         }
         ops.extend(gen_readm(&mut rng, if args.thorough() { 200 } else { 16 }, "wm"));
+        ops.extend(if args.thorough() { gen_dense(&mut rng, 4200, 16) } else { gen_dense(&mut rng, 520, 0) });
+        ops.extend(gen_runs(&mut rng, if args.thorough() { RUNS_THOROUGH } else { &RUNS_QUICK[..7] }, "wr"));
         ops
     } else {
         out.flush_each = true;
@@ -1628,14 +2145,17 @@ fn main() {
     };
     let mut world: Option<NetWorld> = None;
     let mut world_state = World::new();
+    // class l: odd seeds run the async endpoints on a runtime with one worker and one blocking-pool thread
+    let lean_runtime = args.seed % 2 == 1;
+    out.extra.insert("lean_runtime".into(), serde_json::json!(lean_runtime));
     for line in ops {
-        if out.oracle_failures > 60 {
+        if out.oracle_failures > 12 {
             // a broken tree: enough failing inputs have been recorded, do not grind through the rest
             break;
         }
         out.begin(&line);
         if line.starts_with("net ") {
-            let w = world.get_or_insert_with(net_world);
+            let w = world.get_or_insert_with(|| net_world(lean_runtime));
             let (obs, nt) = exec_net(&mut out, w, &line);
             out.case(&line, &obs, nt);
             continue;
